@@ -49,7 +49,7 @@ func init() {
 					detPkg + ".GenerateTopologyHash":                     hashByIdentity("th"),
 					repoMod + "/pkg/analysis/topology.GenerateFuzzyHash": hashByIdentity("fz"),
 				}},
-			{Name: "VerifC05_SelfMatch", Pkg: detPkg, Solver: "z3", TimeoutMs: 60000, MaxPaths: 400000, MapOrderSym: c.Tier == "thorough", Params: map[string]int64{"mode": 1, "litlen": lit, "maxkeys": mk, "maxlits": ml},
+			{Name: "VerifC05_SelfMatch", Pkg: detPkg, Solver: "z3", TimeoutMs: 60000, MaxPaths: 400000, Params: map[string]int64{"mode": 1, "litlen": lit, "maxkeys": mk, "maxlits": ml},
 				Stubs: map[string]Intrinsic{
 					detPkg + ".GenerateTopologyHash":                     hashByIdentity("th"),
 					repoMod + "/pkg/analysis/topology.GenerateFuzzyHash": hashByIdentity("fz"),
